@@ -477,6 +477,9 @@ impl Space for Builtin {
 
 // ------------------------------------------------------------------------------------------------
 pub fn space(tier: Tier, id: &str) -> Option<Box<dyn Space>> {
+    if let Some(r) = reversed_of(id, |base| space(tier, base)) {
+        return r;
+    }
     match id {
         "grid" => Some(Box::new(grid(tier))),
         "families" => Some(Box::new(Families { vals: families() })),
@@ -514,7 +517,7 @@ fn run(ctx: &Ctx) -> i32 {
         println!("reference dump written to {}", path);
         return 0;
     }
-    let ids = ["text", "builtin", "families", "grid"];
+    let ids: Vec<&'static str> = if ctx.tier == Tier::Thorough { vec!["text", "builtin", "families", "grid", "text~rev", "builtin~rev", "families~rev", "grid~rev"] } else { vec!["text", "builtin", "families", "grid", "text~rev", "builtin~rev", "families~rev"] };
     let spaces = ids.iter().map(|id| (*id, space(ctx.tier, id).unwrap())).collect();
     let thorough = ctx.tier == Tier::Thorough;
     let g = grid(ctx.tier);
